@@ -39,7 +39,7 @@ partial def loop (h : IO.FS.Stream) (out : IO.FS.Stream) (g : Global) : IO Globa
   else if line.startsWith "L " || line.startsWith "K " || line.startsWith "H " || line.startsWith "X " then
     let (outs, upd) := if line.startsWith "L " then runLoadLine line
       else if line.startsWith "K " then runListingLine line
-      else if line.startsWith "X " then runAsmLine none line else runHookLine line
+      else if line.startsWith "X " then runAsmLine (some modelAsmStr) line else runHookLine line
     for o in outs do out.putStrLn o
     loop h out { g with text := upd g.text }
   else if line.startsWith "P " then
